@@ -1,19 +1,26 @@
 """C19 — DCC algorithms respect TS 102 687 state, rate and duty-cycle limits.
 
 Theorems: lean/Props/C19.lean about lean/FlexModel/Dcc/{Reactive,Adaptive,Gate}.lean, Spec in FlexModel/Dcc/Spec.lean.
-Tie (every run): Generated/Dcc.lean re-read from the source (gen_dcc.py) + differential correspondence of the model
-with the real classes DccReactive / DccAdaptive / GateKeeper driven in-process:
+Tie (every run): Generated/Dcc.lean re-read from the source (gen_dcc.py; the gate tolerance is MEASURED on the class)
++ differential correspondence of the model with the real classes DccReactive / DccAdaptive / GateKeeper in-process:
   reactive  exhaustive tree of all sequences over band-edge representatives (every edge of the code tables and of
             Annex A, -1/0/+1 in 1e-4 units, plus 0 and 1) up to length 4 (quick) / 5 (thorough) from every state and for
-            both tables, every node compared with the model's transition table; random long sequences incl. off-grid
-            floats, neighbours of the edges by one ulp, invalid values, NaN/inf
-  adaptive  random parameter sets / CBR sequences; each step compared twice: "synced" (model state set to the exact
-            rational of the real float state before the step) and "free" (model runs on its own)
-  gate      random delta, arrival patterns placed relative to the real t_go, T_on, delta updates; synced + free
-Python floats vs exact rationals: values relative 1e-9; decisions exactly unless the model reports a rational margin
-below the band (counted in `tolerance_skips`).
+            both tables, every node compared with the model's transition table; exhaustive constant runs over the
+            float neighbours of every band edge (one ulp ... just under/over half a percent) from every state;
+            random long sequences incl. off-grid floats, invalid values, NaN/inf
+  adaptive  random parameter sets / CBR sequences, multi-phase histories (drive delta to a bound, keep varying while it
+            sits there, then reverse) and long default-parameter histories that reach delta_max; each step compared
+            twice: "synced" (model state := exact rational of the real float state before the step) and "free"
+  gate      random delta, arrival patterns placed relative to the real t_go, T_on, delta updates; scenarios
+            admit -> update_delta x k whose intervals hit the 25 ms / 1 s limits, opening time measured through
+            is_open() by bisection; small, epoch-scale, 2^31 and negative clock values; synced + free
+Python floats vs exact rationals: values relative 1e-9 of the quantity computed (gate: of the closed interval, plus a few
+ulp of the clock value); decisions exactly unless the model-reported rational margin is below the rounding of the
+threshold (counted per stream in `tolerance_skips.*`).
 Oracle: independent transcription (below) of Annex A, clause 5.4 (1)-(6), B.1/B.2 applied to the REAL outputs;
 for reactive traces additionally the Lean `Spec.reactiveHolds` through the driver.
+Known findings (pinned by unit tests, dual-variant theorems): C19-KF1 gate opens up to `_T_EPSILON` = 1 ns early;
+C19-KF2 Table A.1 Active 3 / Restrictive edge at 60 % instead of 65 %.
 """
 from __future__ import annotations
 
@@ -33,32 +40,43 @@ TRUSTED = [
     "ceil for x > 1): exact for every comparison of the reactive code because gen_dcc.py refuses table values that are "
     "not doubles of grid points",
     "modelled rather than verified: IEEE-754 double arithmetic of DccAdaptive/GateKeeper (model and oracle use exact "
-    "rationals of the same float inputs; values compared with relative tolerance 1e-9)",
+    "rationals of the same float inputs; values compared with relative tolerance 1e-9; gate decisions within a few ulp of "
+    "the clock value of t_go are not judged - at Unix-epoch clock values that is about 1 us)",
     "Annex A / clause 5.4 / Annex B numbers in FlexModel/Dcc/Spec.lean and in this module were typed from the builder's "
-    "knowledge of TS 102 687 V1.2.1 (no network access to the PDF) — provenance in design_notes/C19.md",
+    "knowledge of TS 102 687 V1.2.1 (no network access to the PDF) - provenance in design_notes/C19.md; this includes the "
+    "65 % edge of Table A.1 on which known finding C19-KF2 rests",
+    "gateEps in Generated/Dcc.lean is measured by bisection on is_open() for four schedules (gen_dcc.measured_gate_eps)",
 ]
 ASSUMPTIONS = [
-    "DccReactive starts in RELAXED and `state` is only written by update(); GateKeeper is constructed with delta != 0",
-    "the gate tolerance _T_EPSILON (generated, obligation <= 1e-6 s) is treated as measurement tolerance: admissions may be "
-    "25 ms - eps apart and the oracle does not judge is_open() inside [t_go - 1 us, t_go)",
+    "DccReactive starts in RELAXED and `state` is only written by update(); GateKeeper is constructed with delta != 0; "
+    "the public dataclass fields of DccAdaptive (parameters, delta, cbr_its_s) are not written from outside",
+    "input space = finite real numbers: CBR values (local AND global) in [0,1] for the claims about CBR_ITS-S and delta "
+    "(out-of-range local values: rejected, checked; out-of-range or non-finite GLOBAL values are accepted by the code "
+    "and are outside the property's 'CBR sequences over [0,1]': nothing claimed, NaN there poisons cbr_its_s for good); "
+    "gate times / T_on / delta_new finite (NaN passes `x <= 0.0` and leaves t_go = NaN, gate closed for ever: outside)",
+    "gate clock values |t| <= 1e10 s (one ulp <= 2 us); at |t| ~ 1e17 `t + interval == t` and the gate no longer closes",
 ]
 
 REL = 1e-9
+REL_G = 1e-12       # gate: relative to the closed interval (double rounding is ~1e-16; 1e-9 of 1 s would hide C19-KF1's 1 ns)
 INF = float("inf")
 NAN = float("nan")
 
 # ----------------------------------------------------------------------------------------------------------------
 # Independent oracle data (typed from TS 102 687 V1.2.1, not read from the code)
 # ----------------------------------------------------------------------------------------------------------------
-# Table A.1's Active 3 / Restrictive edge (60 %) follows the value the repository documents and tests; the builder's
-# recollection (65 % in both tables) is NOT claimed as a finding — design_notes/C19.md "Discrepancy not claimed".
+# Both tables of Annex A have the same CBR column (< 30 %, 30-39 %, 40-49 %, 50-65 %, > 65 %).  The repository's
+# _TABLE_A1 uses 60 % for the last edge: known finding C19-KF2.
 ANNEX = {   # a2? -> (lower CBR edge of Active1..Restrictive in 1e-4, rate Hz, T_off ms) per state
-    False: ([3000, 4000, 5000, 6000], [F(10), F(5), F(5, 2), F(2), F(1)], [100, 200, 400, 500, 1000]),
+    False: ([3000, 4000, 5000, 6500], [F(10), F(5), F(5, 2), F(2), F(1)], [100, 200, 400, 500, 1000]),
     True: ([3000, 4000, 5000, 6500], [F(20), F(10), F(5), F(4), F(1)], [50, 100, 200, 250, 1000]),
 }
+A2_MAX_TON_US = 500      # Annex A: Table A.2 applies for T_on <= 500 us, Table A.1 up to 1 ms
 TABLE3 = dict(alpha=F(16, 1000), beta=F(12, 10000), cbr_target=F(68, 100), delta_max=F(3, 100), delta_min=F(6, 10000),
               delta_up_max=F(5, 10000), delta_down_max=F(-25, 100000))
-G_MIN, G_MAX, G_TOL = F(25, 1000), F(1), F(1, 10**6)
+G_MIN, G_MAX = F(25, 1000), F(1)
+KF1_EPS = F(1, 10**9)          # signature of C19-KF1: opening at most 1 ns before t_go
+KF2_REGION = (6000, 6500)      # signature of C19-KF2: Table A.1, CBR cell in [60 %, 65 %)
 
 
 def cell(x):
@@ -186,18 +204,25 @@ def judge_r(a2, js, k, x, line, out):
         bad.append(("row", f"state {st} output rate {float(rate)} Hz / T_off {float(toff)} ms, Annex A {float(rates[st])} Hz / {toffs[st]} ms"))
     runlen = runlen + 1 if (last_k is not None and k == last_k) else 1
     if runlen >= 4 and st != band(a2, k):
-        bad.append(("convergence", f"constant CBR {x!r} for {runlen} evaluations: state {st}, Annex A band {band(a2, k)}"))
+        kind = "convergence-kf2" if is_kf2(a2, k, st) else "convergence"
+        bad.append((kind, f"constant CBR {x!r} for {runlen} evaluations: state {st}, Annex A band {band(a2, k)}"))
     return (st, k, runlen), bad
 
 
+def is_kf2(a2, k, st):
+    """signature of C19-KF2: Table A.1, CBR cell in [60 %, 65 %), the machine sits in RESTRICTIVE (4) where the band's
+    state is ACTIVE_3 (3)"""
+    return (not a2) and k is not None and KF2_REGION[0] <= k < KF2_REGION[1] and st == 4
+
+
 def classify_r(a2, k, kind):
-    return None   # no known findings for C19
+    return "C19-KF2" if kind == "convergence-kf2" else None
 
 
 def run_reactive_case(case):
     """real code + oracle on one saved case; returns (problems[(kind,text,k)], trace for the Lean Spec, lines)"""
     t_on, start, xs = case["t_on"], case.get("start", 0), case["cbr"]
-    a2 = t_on <= 500
+    a2 = t_on <= A2_MAX_TON_US
     obj = new_reactive(t_on, start)
     js = (start, None, 0)
     probs, trace, lines = [], [], []
@@ -310,13 +335,85 @@ def reactive_tree(ctx, depth):
     return nodes
 
 
+NEIGHBOUR_OFFSETS = (1e-15, 1e-12, 1e-9, 1e-6, 1e-4, 1e-3, 2.5e-3, 4.9e-3, 4.99e-3, 5e-3, 5.01e-3, 5.1e-3, 9.9e-3)
+
+
+def edge_neighbours():
+    """float neighbours of every band edge (code tables and Annex A): the edge itself, one ulp either side, and the
+    offsets above either side - down to the granularity of the float and up to a percent (whole-percent and
+    half-percent rounding of the input land inside this set)"""
+    xs = set()
+    for k in code_edges():
+        e = k / 10000
+        xs.update((e, math.nextafter(e, -INF), math.nextafter(e, INF)))
+        for d in NEIGHBOUR_OFFSETS:
+            xs.update((e - d, e + d))
+    return sorted(x for x in xs if 0.0 <= x <= 1.0)
+
+
+def reactive_neighbours(ctx, batch=None, runlen=5):
+    """every float neighbour of every band edge as a CONSTANT input for `runlen` evaluations, from every start state,
+    both tables: convergence within four evaluations + Annex A row, judged by the oracle; compared with the model"""
+    xs = edge_neighbours()
+    lines, idx = [], []
+    n = 0
+    for a2, t_on in ((False, 1000), (True, 500)):
+        for s0 in range(5):
+            for x in xs:
+                case = {"kind": "reactive", "t_on": t_on, "start": s0, "cbr": [x] * runlen}
+                probs, _, real_lines = run_reactive_case(case)
+                n += runlen
+                for kind, text, k in probs:
+                    report_r(ctx, a2, t_on, s0, case["cbr"], kind, text, k)
+                    ctx.cover("reactive.oracle." + kind)
+                if batch is not None and ctx.model_ok:
+                    lines += [f"r new {t_on}", f"r set {s0}"] + [f"r upd {cell(x)}"] * runlen
+                    idx += [None, None] + [(case, rl) for rl in real_lines]
+    ctx.evals(n)
+    ctx.cover("reactive.neighbours.inputs", len(xs))
+    ctx.cover("reactive.neighbours.evaluations", n)
+
+    def finish(out):
+        for ent, got in zip(idx, out):
+            if ent is not None and got != ent[1]:
+                ctx.mismatch("reactive.neighbours", {"t_on": ent[0]["t_on"], "start": ent[0]["start"], "cbr": ent[0]["cbr"]}, ent[1], got)
+    if batch is not None:
+        batch.add(lines, finish)
+
+
+def check_table_selection(ctx, batch=None):
+    """Annex A: Table A.2 is for T_on <= 500 us.  Observed through the API only: the rate reported in RELAXED
+    (10 Hz = Table A.1, 20 Hz = Table A.2); the model's `r new` reply is compared too"""
+    tons = (-1, 0, 1, 250, 499, 500, 501, 999, 1000, 1001, 10**6)
+    lines = []
+    for t_on in tons:
+        out = R.DccReactive(t_on_max_us=t_on).update(0.0)
+        want = ANNEX[t_on <= A2_MAX_TON_US][1][0]
+        ctx.evals(1)
+        if F(out.packet_rate_hz) != want or out.state.value != 0:
+            ctx.violation(f"reactive: t_on_max_us={t_on} reports {out.packet_rate_hz} Hz in RELAXED, Annex A table for this T_on gives {float(want)} Hz",
+                          {"kind": "reactive", "t_on": t_on, "start": 0, "cbr": [0.0]})
+        lines.append(f"r new {t_on}")
+
+    def finish(out):
+        for t_on, got in zip(tons, out):
+            want = f"ok {1 if t_on <= A2_MAX_TON_US else 0}"
+            if got != want:
+                ctx.mismatch("reactive.table-selection", {"t_on": t_on}, want, got)
+    if batch is not None and ctx.model_ok:
+        batch.add(lines, finish)
+
+
 def random_cbr(ctx, edges):
     r = ctx.rng.random()
     if r < 0.30:
         return ctx.rng.choice(edges) / 10000 + ctx.rng.choice((-1, 0, 0, 1)) / 10000
-    if r < 0.45:
+    if r < 0.40:
         e = ctx.rng.choice(edges) / 10000
         return math.nextafter(e, ctx.rng.choice((-INF, INF)))
+    if r < 0.50:
+        e = ctx.rng.choice(edges) / 10000
+        return min(1.0, max(0.0, e + ctx.rng.choice((-1, 1)) * ctx.rng.choice(NEIGHBOUR_OFFSETS)))
     if r < 0.70:
         return ctx.rng.randrange(0, 10001) / 10000
     if r < 0.93:
@@ -337,7 +434,7 @@ def reactive_random(ctx, n_seq, batch=None):
         cases.append({"kind": "reactive", "t_on": t_on, "start": 0, "cbr": xs[:n]})
     lines, idx = [], []
     for ci, case in enumerate(cases):
-        a2 = case["t_on"] <= 500
+        a2 = case["t_on"] <= A2_MAX_TON_US
         probs, trace, real_lines = run_reactive_case(case)
         ctx.evals(len(case["cbr"]))
         for kind, text, k in probs:
@@ -360,11 +457,9 @@ def reactive_random(ctx, n_seq, batch=None):
             sl = spec_line(a2, 0, trace)
             if sl is not None:
                 lines.append(sl)
-                idx.append((ci, "spec", None, "0" if any(kind in ("adjacency", "row", "convergence", "state") for kind, _, _ in probs) else "1"))
+                idx.append((ci, "spec", None, "0" if any(kind in ("adjacency", "row", "convergence", "convergence-kf2", "state") for kind, _, _ in probs) else "1"))
     def finish(out):
         for (ci, what, x, want), got in zip(idx, out):
-            if what == "new":
-                continue   # table choice is observed through the following outputs
             if got != want:
                 ctx.mismatch("reactive.random" if what == "upd" else "reactive.spec-vs-oracle",
                              {"t_on": cases[ci]["t_on"], "cbr": cases[ci]["cbr"], "at": x}, want, got)
@@ -449,8 +544,10 @@ def run_adaptive_case(case):
     return probs, recs
 
 
-def random_params(ctx):
+def random_params(ctx, valid_only=False):
     r = ctx.rng.random()
+    if valid_only:
+        r *= 0.8
     u = ctx.rng.uniform
     if r < 0.25:
         d = A.DccAdaptiveParameters()
@@ -503,19 +600,85 @@ def ors(x):
     return "-" if x is None else rs(x)
 
 
-def adaptive_random(ctx, n_seq, batch=None):
+def level_steps(ctx, lo, hi, n, style):
+    """n evaluations with the CBR between lo and hi: constant / ramp lo->hi / alternating / random"""
+    out = []
+    for i in range(n):
+        if style == "const":
+            v = lo
+        elif style == "ramp":
+            v = lo + (hi - lo) * i / max(1, n - 1)
+        elif style == "osc":
+            v = hi if i % 2 else lo
+        else:
+            v = ctx.rng.uniform(lo, hi)
+        v = min(1.0, max(0.0, v))
+        lp = v if ctx.rng.random() < 0.6 else min(1.0, max(0.0, v + ctx.rng.uniform(-0.05, 0.05)))
+        if ctx.rng.random() < 0.1:       # the same values through the global pair (local pair valid but different)
+            out.append([ctx.rng.random(), ctx.rng.random(), v, lp])
+        else:
+            out.append([v, lp, None, None])
+    return out
+
+
+def phased_steps(ctx, params):
+    """multi-phase history: (1) hold the CBR on one side of the target long enough to drive delta to its bound,
+    (2) keep varying the CBR on that side while delta sits at the bound, (3) jump to the other side, (4) sometimes back.
+    What the filter state did during (2) only shows in the first evaluations of (3)."""
+    t = min(1.0, max(0.0, params[2]))
+    up = ctx.rng.random() < 0.6 or t < 0.05     # True: CBR above target -> delta at delta_min (its initial value)
+    if up and t > 0.97:
+        up = False
+    if up:
+        side = (min(1.0, t + 0.02), 1.0)
+        other = (0.0, max(0.0, t - ctx.rng.choice((0.2, 0.34, 0.5))))
+    else:
+        side = (0.0, max(0.0, t - 0.05))
+        other = (min(1.0, t + ctx.rng.choice((0.02, 0.1, 0.3))), 1.0)
+    n1 = ctx.rng.choice((3, 6, 12, 40, 120, 230))
+    n2 = ctx.rng.choice((3, 8, 20, 60))
+    n3 = ctx.rng.choice((3, 6, 12))
+    steps = level_steps(ctx, side[0], side[0] + (side[1] - side[0]) * 0.3 * ctx.rng.random(), n1, ctx.rng.choice(("const", "rand")))
+    steps += level_steps(ctx, side[0], side[1], n2, ctx.rng.choice(("ramp", "osc", "rand", "const")))
+    lvl = ctx.rng.uniform(*other) if ctx.rng.random() < 0.5 else ctx.rng.choice(other)
+    steps += level_steps(ctx, lvl, lvl, n3, "const")
+    if ctx.rng.random() < 0.4:
+        steps += level_steps(ctx, side[0], side[1], ctx.rng.choice((2, 5, 30)), "rand")
+        steps += level_steps(ctx, other[0], other[1], ctx.rng.choice((2, 5)), "rand")
+    return steps
+
+
+FREE_STEPS = 150     # the free-running model carries exact rationals whose size grows with every step
+
+
+def adaptive_random(ctx, n_seq, batch=None, phased=False):
     for _ in range(n_seq):
-        params = random_params(ctx)
-        case = {"kind": "adaptive", "params": params, "steps": random_steps(ctx, params, ctx.rng.randrange(5, 90))}
+        params = random_params(ctx, valid_only=phased)
+        if phased:
+            steps = phased_steps(ctx, params)
+        else:
+            steps = random_steps(ctx, params, ctx.rng.randrange(5, 90))
+        case = {"kind": "adaptive", "params": params, "steps": steps}
         probs, recs = run_adaptive_case(case)
         ctx.evals(len(recs))
         for kind, text in probs:
             ctx.violation("adaptive: " + text, case)
             ctx.cover("adaptive.oracle." + kind)
+        at_bound = None
         for rec in recs:
             ctx.cover("adaptive.out." + rec[2].split(":")[0])
             if len(rec) > 5:
                 ctx.cover("tolerance_skips")
+                ctx.cover("tolerance_skips.adaptive.oracle")
+            if rec[2] == "ok":
+                now = "min" if rec[3][1] == params[4] else ("max" if rec[3][1] == params[3] else None)
+                if now:
+                    ctx.cover("adaptive.delta-at-" + now)
+                elif at_bound:
+                    ctx.cover("adaptive.delta-leaves-" + at_bound)
+                at_bound = now
+        ctx.cover("adaptive.histories." + ("phased" if phased else "random"))
+        ctx.counts["adaptive.longest-history"] = max(ctx.counts.get("adaptive.longest-history", 0), len(recs))
         ctx.nontrivial(("aseq", [rs(v) for v in params], len(recs)))
         ctx.cover("adaptive.params." + ("min<=max" if params[4] <= params[3] else "min>max"))
         ctx.sample("adaptive.random", {"params": params, "steps": case["steps"][:3], "real": [[r[2], list(r[3])] for r in recs[:3]]}, 1)
@@ -530,7 +693,7 @@ def adaptive_random(ctx, n_seq, batch=None):
             idx += [("set", i), ("sync", i)]
         lines.append(head)
         idx.append(("new", None))
-        for i, (pre, step, line, post, *_r) in enumerate(recs):      # free pass
+        for i, (pre, step, line, post, *_r) in enumerate(recs[:FREE_STEPS]):      # free pass
             if not all(finite(v) for v in step if v is not None):
                 continue
             lines.append("a upd " + " ".join(ors(v) for v in step))
@@ -558,6 +721,7 @@ def compare_adaptive(ctx, params, case, recs, idx, out):
             continue
         if abs(m_diff) <= REL:        # step-2 decision inside the tolerance band
             ctx.cover("tolerance_skips")
+            ctx.cover("tolerance_skips.adaptive." + what)
             if what == "free":
                 alive = False
             continue
@@ -587,24 +751,68 @@ def real_gate_op(gk, op):
     raise Infra(f"unknown gate op {op}")
 
 
-def decide_open(tgo, t):
-    """B.1/B.2: open from t_go on (True), closed before (False); None inside the 1 us tolerance band below t_go"""
+def slack(*ts):
+    """rounding allowance of a float clock value: four ulp of the largest magnitude involved (t_go = fl(t_pg + iv))"""
+    return 4 * F(math.ulp(max([abs(float(t)) for t in ts] + [5e-324])))
+
+
+def gtol(tgo, tpg, *ts):
+    """allowance between the rational of B.1/B.2 and the float the code stores: 1e-12 of the closed interval + rounding"""
+    return F(REL_G) * (abs(tgo - tpg) if tpg is not None else 1) + slack(tgo, *ts)
+
+
+def decide_open(tgo, t, tpg=None):
+    """B.1/B.2 exactly: open from t_go on (True), closed before (False); None within the rounding allowance of t_go"""
     if tgo is None:
         return True
-    if F(t) >= tgo:
+    sl = gtol(tgo, tpg, t)
+    if F(t) >= tgo + sl:
         return True
-    if F(t) < tgo - G_TOL:
+    if F(t) < tgo - sl:
         return False
     return None
+
+
+def early_kind(base, amount, sl):
+    """an opening / admission `amount` seconds before the prescribed time: C19-KF1 iff at most 1 ns (+ rounding)"""
+    return base + ("-kf1" if amount <= KF1_EPS + sl else "")
 
 
 def clamp(x):
     return min(max(x, G_MIN), G_MAX)
 
 
+def close_tgo(real_tgo, real_tpg, spec_tgo, spec_tpg, rel=None):
+    """real t_go against the rational of B.1/B.2: relative 1e-12 of the closed interval + rounding of the clock value
+    (`rel`: looser relative part for the free-running model, where B.2 multiplies the carried rounding by the delta ratio)"""
+    if real_tgo is None or spec_tgo is None:
+        return real_tgo is None and spec_tgo is None
+    if not finite(real_tgo):
+        return False
+    extra = F(rel) * abs(spec_tgo - spec_tpg) if rel and spec_tpg is not None else 0
+    return abs(F(real_tgo) - spec_tgo) <= gtol(spec_tgo, spec_tpg) + extra
+
+
+def opening_threshold(gk, lo, hi):
+    """smallest float t in (lo, hi] at which is_open(t) is True, by bisection through the API (None if not closed at lo /
+    not open at hi)"""
+    if gk.is_open(lo) or not gk.is_open(hi):
+        return None
+    while math.nextafter(lo, hi) < hi:
+        mid = lo + (hi - lo) / 2
+        if mid <= lo or mid >= hi:
+            mid = math.nextafter(lo, hi)
+        if gk.is_open(mid):
+            hi = mid
+        else:
+            lo = mid
+    return hi
+
+
 def run_gate_case(case, planner=None):
     """real code + oracle (spec state advanced by B.1/B.2 with the real admission decisions).
-    `planner(gk, last_admission)` may append ops adaptively (times relative to the real t_go)."""
+    `planner(gk, last_admission, i)` may append ops adaptively (times relative to the real t_go).
+    problems: (kind, text); kinds ending in `-kf1` fall under known finding C19-KF1."""
     d0 = case["delta"]
     gk = A.GateKeeper(delta=d0)
     ops = list(case["ops"])
@@ -629,11 +837,15 @@ def run_gate_case(case, planner=None):
         kind, t = op[0], op[1]
         if d0 == 0:
             continue   # outside the assumptions: correspondence only
-        exp = decide_open(stgo, t)
+        exp = decide_open(stgo, t, stpg)
+        tol = gtol(stgo, stpg, t) if stgo is not None else F(0)
+        if exp is None:
+            recs[-1] = recs[-1] + ("unjudged",)
         if kind == "open":
             if exp is not None and line != ("1" if exp else "0"):
-                probs.append(("open", f"is_open({t!r}) = {line} with t_go(B.1/B.2) = {None if stgo is None else float(stgo)!r}"))
-            if last_adm is not None and F(t) >= F(last_adm) + G_MAX and line != "1":
+                k = early_kind("open-early", stgo - F(t), tol) if line == "1" else "open-late"
+                probs.append((k, f"is_open({t!r}) = {line} with t_go(B.1/B.2) = {float(stgo)!r} ({float(stgo - F(t))!r} s before it)"))
+            if last_adm is not None and F(t) >= F(last_adm) + G_MAX + slack(t) and line != "1":
                 probs.append(("max-closed", f"still closed at {t!r}, more than 1 s after the admission at {last_adm!r}"))
             if post != pre:
                 probs.append(("open", "is_open changed the state"))
@@ -644,17 +856,23 @@ def run_gate_case(case, planner=None):
                     probs.append(("reject", f"admit_packet(t_on={ton!r}) -> {line}, state changed: {post != pre}"))
                 continue
             if exp is not None and line != ("admitted" if exp else "rejected"):
-                probs.append(("admit", f"admit_packet({t!r}) -> {line} with t_go(B.1/B.2) = {None if stgo is None else float(stgo)!r}"))
-            if last_adm is not None and F(t) >= F(last_adm) + G_MAX and line != "admitted":
+                k = early_kind("admit-early", stgo - F(t), tol) if line == "admitted" else "admit-late"
+                probs.append((k, f"admit_packet({t!r}) -> {line} with t_go(B.1/B.2) = {float(stgo)!r} ({float(stgo - F(t))!r} s before it)"))
+            if last_adm is not None and F(t) >= F(last_adm) + G_MAX + slack(t) and line != "admitted":
                 probs.append(("max-closed", f"packet at {t!r} rejected more than 1 s after the admission at {last_adm!r}"))
             if line == "admitted":
-                if last_adm is not None and F(t) - F(last_adm) < G_MIN - G_TOL:
-                    probs.append(("spacing", f"admissions at {last_adm!r} and {t!r} are {float(F(t) - F(last_adm))!r} s apart (< 25 ms)"))
+                if last_adm is not None:
+                    short = G_MIN - (F(t) - F(last_adm))
+                    if short > slack(t, last_adm):
+                        probs.append((early_kind("spacing", short, slack(t, last_adm)),
+                                      f"admissions at {last_adm!r} and {t!r} are {float(F(t) - F(last_adm))!r} s apart (< 25 ms by {float(short)!r} s)"))
                 stpg = F(t)
                 stgo = stpg + clamp(F(ton) / sd)                                           # (B.1)
                 last_adm = t
-                if post[1] != t or not close(post[2], stgo):
+                if post[1] != t or not close_tgo(post[2], post[1], stgo, stpg):
                     probs.append(("B.1", f"after admission at {t!r} (t_on {ton!r}, delta {float(sd)!r}): t_pg {post[1]!r}, t_go {post[2]!r}; B.1 gives {float(stgo)!r}"))
+                else:
+                    stgo = F(post[2])      # carry the float the code stored: the next B.2 is judged one step at a time
                 # at most one packet per opening: the gate is closed at the admission instant
                 again = copy.copy(gk)
                 if again.is_open(t) or again.admit_packet(t, ton):
@@ -674,26 +892,47 @@ def run_gate_case(case, planner=None):
                 probs.append(("update", f"update_delta({t!r}, {dn!r}) raised {line}"))
                 continue
             cands = []
-            if stgo is None or exp is not False:
+            kf1_window = stgo is not None and exp is False and stgo - F(t) <= KF1_EPS + tol
+            if stgo is None or exp is not False or kf1_window:
                 cands.append(stgo)                                                         # gate open: only delta changes
             if stgo is not None and exp is not True:
                 cands.append(stpg + clamp(sd / F(dn) * (stgo - stpg)))                     # (B.2)
-            hit = [c for c in cands if close(post[2], c)]
+            hit = [c for c in cands if close_tgo(post[2], post[1], c, stpg)]
             if post[0] != dn or post[1] != pre[1] or not hit:
                 probs.append(("B.2", f"update_delta({t!r}, {dn!r}) from delta {float(sd)!r}, t_pg {pre[1]!r}, t_go {pre[2]!r} -> t_go {post[2]!r}; "
                                      f"B.2 allows {[None if c is None else float(c) for c in cands]}"))
             else:
-                stgo = hit[0]
+                if kf1_window and hit[0] == stgo and len(cands) == 2 and not close_tgo(post[2], post[1], cands[1], stpg):
+                    probs.append(("update-kf1", f"update_delta({t!r}) {float(stgo - F(t))!r} s before t_go treated the gate as open (no B.2 rescheduling)"))
+                stgo = F(post[2]) if post[2] is not None else None
             sd = F(dn)
-        if stpg is not None and stgo is not None and not (G_MIN <= stgo - stpg <= G_MAX):
+        elif kind == "thr":
+            pass
+        if stpg is not None and stgo is not None and not (G_MIN - gtol(stgo, stpg) <= stgo - stpg <= G_MAX + gtol(stgo, stpg)):
             raise Infra("oracle invariant broken")
+        if case.get("measure") and stgo is not None and kind in ("adm", "upd") and line in ("admitted", "done"):
+            # the opening time as the API shows it: bisection on is_open between t_pg and t_pg + 1 s (+ rounding)
+            probe = copy.copy(gk)
+            tau = opening_threshold(probe, float(stpg), float(stpg + G_MAX) + 8 * math.ulp(float(stpg + G_MAX)))
+            sl = gtol(stgo, stpg)
+            if tau is None:
+                probs.append(("threshold", f"gate not closed at t_pg / not open 1 s later (t_pg {float(stpg)!r})"))
+            elif F(tau) > stgo + sl:
+                probs.append(("open-late", f"gate opens at {tau!r}, B.1/B.2 give t_go = {float(stgo)!r}"))
+            elif F(tau) < stgo - sl:
+                probs.append((early_kind("open-early", stgo - F(tau), sl), f"gate opens at {tau!r}, {float(stgo - F(tau))!r} s before t_go(B.1/B.2) = {float(stgo)!r}"))
     case = dict(case, ops=ops)
     return probs, recs, case
 
 
+GATE_BASES = (0.0, 1.7e9, 2.0 ** 31 - 0.01, -1000.0, 86400.0 * 365)
+
+
 def gate_planner(ctx, n):
     u = ctx.rng.uniform
-    state = {"t": u(0, 5) if ctx.rng.random() < 0.7 else u(0, 5000)}
+    r0 = ctx.rng.random()
+    base = u(0, 5) if r0 < 0.6 else (u(0, 5000) if r0 < 0.8 else ctx.rng.choice(GATE_BASES) + u(0, 5))
+    state = {"t": base}
 
     def plan(gk, last_adm, i):
         if i >= n:
@@ -703,8 +942,10 @@ def gate_planner(ctx, n):
         if tgo is not None and r < 0.45:      # relative to the real opening time
             off = ctx.rng.choice((0.0, 1e-9, -1e-9, 5e-10, -5e-10, 2e-9, -2e-9, 1e-7, -1e-7, -2e-6, 1e-6, -1e-3, 1e-3, -0.01, 0.01, u(-0.05, 0.05)))
             t = tgo + off
+            if off == 0.0 and ctx.rng.random() < 0.3:
+                t = math.nextafter(tgo, ctx.rng.choice((-INF, INF)))
         elif last_adm is not None and r < 0.60:
-            t = last_adm + ctx.rng.choice((1.0, 1.0 + 1e-7, 0.025, 0.025 - 2e-6, 0.0249, 0.0, 1e-4, 0.999, 1.5))
+            t = last_adm + ctx.rng.choice((1.0, 1.0 + 1e-7, 0.025, 0.025 - 5e-10, 0.025 - 2e-6, 0.0249, 0.0, 1e-4, 0.999, 1.5))
         else:
             t = state["t"] + ctx.rng.choice((0.0, u(0, 0.03), u(0, 0.3), u(0, 2.0)))
         if ctx.rng.random() < 0.9:
@@ -724,9 +965,41 @@ def gate_planner(ctx, n):
     return plan
 
 
+def limited_scenario(ctx):
+    """admit -> update_delta x k (k = 1..3) inside the closed period, with T_on/delta and the rescaled intervals chosen
+    below 25 ms, between, and above 1 s, so that B.2 starts from a LIMITED interval; then probes around the result.
+    The opening time is additionally measured through is_open() after every step (`measure`)."""
+    u = ctx.rng.uniform
+    base = ctx.rng.choice((0.0, 10.0, u(0, 100), u(0, 100), 1.7e9 + u(0, 10)))
+    cls = ctx.rng.choice(("above", "below", "inside"))
+    ton = ctx.rng.choice((0.001, 0.0005, 0.0002, u(1e-4, 4e-3)))
+    if cls == "above":
+        d0 = ton / u(1.05, 3.0)                 # T_on/delta in (1, 3] s  -> limited to 1 s
+    elif cls == "below":
+        d0 = ton / u(0.002, 0.024)              # -> limited to 25 ms
+    else:
+        d0 = ton / u(0.03, 0.95)
+    ops = [["adm", base, ton]]
+    iv = float(min(max(F(ton) / F(d0), G_MIN), G_MAX))
+    d = d0
+    for _ in range(ctx.rng.choice((1, 2, 2, 3))):
+        t = base + iv * ctx.rng.choice((0.04, 0.15, 0.4, 0.6, 0.9))
+        want = ctx.rng.choice((0.01, 0.02, 0.03, 0.2, 0.6, 1.5, 4.0)) if ctx.rng.random() < 0.7 else u(0.005, 5.0)
+        dn = d * iv / want                      # B.2 then asks for `want` seconds
+        if not (0 < dn < 1e6):
+            dn = d
+        ops.append(["upd", t, dn])
+        iv = float(min(max(F(d) / F(dn) * F(iv), G_MIN), G_MAX))
+        d = dn
+    end = base + iv
+    for off in ctx.rng.sample((-1e-3, -2e-6, -1e-9, -5e-10, 0.0, 5e-10, 1e-6, 1e-3), 4):
+        ops.append(["open", end + off] if ctx.rng.random() < 0.65 else ["adm", end + off, ton])
+    return {"kind": "gate", "delta": d0, "ops": ops, "measure": True}
+
+
 def gate_lines(recs, synced):
     lines, idx = [], []
-    for i, (pre, op, line, post) in enumerate(recs):
+    for i, (pre, op, line, post, *_u) in enumerate(recs):
         if not all(finite(v) for v in op[1:]):
             continue
         if synced:
@@ -737,42 +1010,68 @@ def gate_lines(recs, synced):
     return lines, idx
 
 
+def report_gate(ctx, case, probs):
+    for kind, text in probs:
+        ctx.violation("gate: " + text, {k: v for k, v in case.items()}, finding="C19-KF1" if kind.endswith("-kf1") else None)
+        ctx.cover("gate.oracle." + kind)
+
+
+def gate_run_one(ctx, case, planner, batch, tag):
+    probs, recs, case = run_gate_case(case, planner)
+    ctx.evals(len(recs))
+    report_gate(ctx, case, probs)
+    for rec in recs:
+        ctx.cover(f"gate.{rec[1][0]}.{rec[2]}")
+        if len(rec) > 4:
+            ctx.cover("tolerance_skips")
+            ctx.cover("tolerance_skips.gate.oracle")
+    big = max([abs(o[1]) for o in case["ops"]] + [0.0])
+    ctx.cover("gate.clock." + ("<1e3" if big < 1e3 else ("<1e6" if big < 1e6 else ">=1e6")))
+    ctx.cover("gate.histories." + tag)
+    ctx.nontrivial(("gseq", rs(case["delta"]), [(o[0], rs(o[1])) for o in case["ops"][:6]]))
+    ctx.sample("gate." + tag, {"delta": case["delta"], "ops": case["ops"][:4], "real": [r[2] for r in recs[:4]]}, 1)
+    if batch is None or not ctx.model_ok:
+        return
+    l1, i1 = gate_lines(recs, True)
+    batch.add(l1, lambda out, a=(case, recs, i1): compare_gate(ctx, *a, out, "gate.sync"))
+    if big < 1e6 and case["delta"] != 0:    # delta == 0: outside the assumptions, step-synced outcome only; beyond 1e6, B.2 amplifies the rounding of t_go - t_pg by delta_old/delta_new: only step-synced comparison
+        l2, i2 = gate_lines(recs, False)
+        batch.add([f"g new {rs(case['delta'])}"] + l2, lambda out, a=(case, recs, i2): compare_gate(ctx, *a, out[1:], "gate.free"))
+
+
 def gate_random(ctx, n_seq, batch=None):
     for _ in range(n_seq):
         d0 = ctx.rng.choice((ctx.rng.uniform(1e-4, 0.05), ctx.rng.uniform(1e-4, 0.05), 0.0006, 0.03, 0.01, 1e-6, 1.0, -0.01))
         if ctx.rng.random() < 0.02:
             d0 = 0.0
-        probs, recs, case = run_gate_case({"kind": "gate", "delta": d0, "ops": []}, gate_planner(ctx, ctx.rng.randrange(5, 90)))
-        ctx.evals(len(recs))
-        for kind, text in probs:
-            ctx.violation("gate: " + text, case)
-            ctx.cover("gate.oracle." + kind)
-        for _, op, line, _ in recs:
-            ctx.cover(f"gate.{op[0]}.{line}")
-        ctx.nontrivial(("gseq", rs(d0), [(o[0], rs(o[1])) for o in case["ops"][:6]]))
-        ctx.sample("gate.random", {"delta": d0, "ops": case["ops"][:4], "real": [r[2] for r in recs[:4]]}, 1)
-        if batch is None or not ctx.model_ok:
-            continue
-        l1, i1 = gate_lines(recs, True)
-        l2, i2 = gate_lines(recs, False)
-        batch.add(l1, lambda out, a=(case, recs, i1): compare_gate(ctx, *a, out, "gate.sync"))
-        batch.add([f"g new {rs(d0)}"] + l2, lambda out, a=(case, recs, i2): compare_gate(ctx, *a, out[1:], "gate.free"))
+        gate_run_one(ctx, {"kind": "gate", "delta": d0, "ops": []}, gate_planner(ctx, ctx.rng.randrange(5, 90)), batch, "random")
+
+
+def gate_limited(ctx, n_seq, batch=None):
+    for _ in range(n_seq):
+        gate_run_one(ctx, limited_scenario(ctx), None, batch, "limited")
 
 
 def compare_gate(ctx, case, recs, idx, out, stream):
     for (what, i), got in zip(idx, out):
         if what == "set":
             continue
-        pre, op, line, post = recs[i]
+        pre, op, line, post = recs[i][:4]
         tok = got.split()
         # tok: result, pre(delta,tpg,tgo), margin[, post(delta,tpg,tgo)]
         res = tok[0]
         margin = parse_rat(tok[4])
         t = op[1]
-        border = margin is not None and abs(margin) <= F(1, 10**12) * max(1, abs(F(t)))
+        # the real threshold is fl(t_go - eps): decisions within its rounding are not comparable; the free-running
+        # model additionally carries the accumulated rounding of its own t_go
+        width = 2 * F(math.ulp(max(abs(t), abs(pre[2] or 0.0), 5e-324)))
+        if stream == "gate.free":
+            width += F(1, 10**12) * max(1, abs(F(t)))
+        border = margin is not None and abs(margin) <= width
         if res != line:
             if border and {res, line} in ({"0", "1"}, {"admitted", "rejected"}):
                 ctx.cover("tolerance_skips")
+                ctx.cover("tolerance_skips." + stream)
                 if stream == "gate.free":
                     return      # free-running model may have diverged legitimately
                 continue
@@ -780,13 +1079,16 @@ def compare_gate(ctx, case, recs, idx, out, stream):
             if stream == "gate.free":
                 return
             continue
-        if op[0] == "open":
-            continue
+        if op[0] == "open" or line == "ZeroDivisionError":
+            continue   # delta == 0 is outside the assumptions: only the outcome is compared, not which fields were written before the division
         m_post = [parse_rat(x) for x in tok[5:8]]
-        ok = close(post[0], m_post[0]) and close(post[1], m_post[1]) and close(post[2], m_post[2])
+        ok = close(post[0], m_post[0]) and close(post[1], m_post[1]) and \
+            (close_tgo(post[2], post[1], m_post[2], m_post[1], REL if stream == "gate.free" else None)
+             if m_post[1] is not None else close(post[2], m_post[2]))
         if not ok:
             if border and op[0] == "upd":
                 ctx.cover("tolerance_skips")
+                ctx.cover("tolerance_skips." + stream)
                 if stream == "gate.free":
                     return
                 continue
@@ -818,9 +1120,10 @@ def run_corpus(ctx):
 
 
 def judge_case(ctx, case, report=False, verbose=False):
+    """True iff the real code violates the property on this case (known findings included)"""
     kind = case.get("kind")
     if kind == "reactive":
-        a2 = case["t_on"] <= 500
+        a2 = case["t_on"] <= A2_MAX_TON_US
         probs, _, lines = run_reactive_case(case)
         if verbose:
             print("real:", lines[-6:], "->", [t for _, t, _ in probs] or "ok")
@@ -828,10 +1131,15 @@ def judge_case(ctx, case, report=False, verbose=False):
             for k_, text, k in probs:
                 report_r(ctx, a2, case["t_on"], case.get("start", 0), case["cbr"], k_, text, k)
         return bool(probs)
+    if kind == "gate":
+        probs, recs, _ = run_gate_case(case)
+        if verbose:
+            print("real:", [r[2] for r in recs[-6:]], "->", [t for _, t in probs] or "ok")
+        if report:
+            report_gate(ctx, case, probs)
+        return bool(probs)
     if kind == "adaptive":
         probs, recs = run_adaptive_case(case)
-    elif kind == "gate":
-        probs, recs, _ = run_gate_case(case)
     elif kind == "defaults":
         d = A.DccAdaptiveParameters()
         probs = [("defaults", case["name"])] if F(repr(float(getattr(d, case["name"])))) != TABLE3[case["name"]] else []
@@ -846,20 +1154,39 @@ def judge_case(ctx, case, report=False, verbose=False):
     return bool(probs)
 
 
+def probe_variants(ctx):
+    """which variant of the two known findings the code under test is (run the witnesses); recorded in the evidence.
+    Nothing depends on it for judging: a repaired code simply produces no violation of that signature."""
+    gk = A.GateKeeper(delta=1.0)
+    kf1 = gk.admit_packet(0.0, 0.001) and gk.admit_packet(0.025 - 5e-10, 0.001)
+    obj = R.DccReactive(t_on_max_us=1000)
+    st = [obj.update(0.62).state.value for _ in range(6)][-1]
+    ctx.extra["variants"] = {"C19-KF1": "as-is (opens 1 ns early)" if kf1 else "repaired (opens at t_go)",
+                             "C19-KF2": "as-is (A.1 edge 60 %)" if st == 4 else ("repaired (A.1 edge 65 %)" if st == 3 else f"other: state {st}")}
+    ctx.note(f"known-finding variants of the code under test: {ctx.extra['variants']}")
+
+
 def run(ctx):
     ctx.extra["rule"] = ("reactive: every node of the exhaustive sequence tree over the band-edge representatives (one real "
-                         "update() each) + every step of random sequences; adaptive/gate: every real call of random histories. "
+                         "update() each) + every evaluation of the edge-neighbour constant runs + every step of random "
+                         "sequences; adaptive/gate: every real call of random, phased and limited-interval histories. "
                          "distinct_nontrivial counts distinct representatives and distinct random (parameter set, sequence) cases")
+    probe_variants(ctx)
     run_corpus(ctx)
     check_constants(ctx)
     depth = ctx.scale(4, 5)
     reactive_tree(ctx, depth)
     ctx.exhaustive = True
-    ctx.note(f"reactive tree exhaustive to depth {depth} over {len(representatives())} representatives x 5 start states x 2 tables")
+    ctx.note(f"reactive tree exhaustive to depth {depth} over {len(representatives())} representatives x 5 start states x 2 tables; "
+             f"constant runs over {len(edge_neighbours())} float neighbours of the band edges x 5 start states x 2 tables")
     batch = Batch()
+    check_table_selection(ctx, batch)
+    reactive_neighbours(ctx, batch)
     reactive_random(ctx, ctx.scale(150, 3000), batch)
-    adaptive_random(ctx, ctx.scale(120, 2500), batch)
-    gate_random(ctx, ctx.scale(120, 2500), batch)
+    adaptive_random(ctx, ctx.scale(90, 2000), batch)
+    adaptive_random(ctx, ctx.scale(40, 800), batch, phased=True)
+    gate_random(ctx, ctx.scale(100, 2200), batch)
+    gate_limited(ctx, ctx.scale(60, 1200), batch)
     batch.flush(ctx)
 
 
@@ -869,10 +1196,14 @@ def search(ctx):
     ctx.model_ok = False
     try:
         check_constants(ctx)
+        check_table_selection(ctx)
+        reactive_neighbours(ctx, runlen=6)
         reactive_tree(ctx, ctx.scale(4, 5))
         reactive_random(ctx, ctx.scale(450, 9000))
-        adaptive_random(ctx, ctx.scale(360, 7500))
-        gate_random(ctx, ctx.scale(360, 7500))
+        adaptive_random(ctx, ctx.scale(270, 6000))
+        adaptive_random(ctx, ctx.scale(120, 2400), phased=True)
+        gate_random(ctx, ctx.scale(300, 6600))
+        gate_limited(ctx, ctx.scale(180, 3600))
     finally:
         ctx.model_ok = ok
 
